@@ -63,7 +63,8 @@ def run(ctx):
         p = os.path.join(ctx.work, fn)
         if os.path.exists(p):
             os.remove(p)
-    rc, out = ctx.go_test("internal/net", "^TestVerifC23$", ["zz_verif_C23_test.go"], timeout=600 if not ctx.thorough else 1500)
+    rc, out = ctx.go_test("internal/net", "^TestVerifC23$", ["zz_verif_C23_test.go"], env={"VERIF_CORPUS": os.path.join(os.path.dirname(os.path.dirname(os.path.abspath(__file__))), "corpus")},
+                         timeout=900 if not ctx.thorough else 1800)
     cases = read_jsonl(os.path.join(ctx.work, "c23_cases.jsonl"))
     streams = read_jsonl(os.path.join(ctx.work, "c23_streams.jsonl"))
     try:
